@@ -177,6 +177,9 @@ def field_cases(tier):
     for fam, fp, order in itertools.product(fams, (False, True), ("ascending", "descending", "rotated")):
         # all halos in ONE case (one process): consecutive solves that differ only in the halo
         yield {"family": fam, "halos": list(halos), "footprint": fp, "order": order, "ns": ns}
+    # the same ladder with the numerical thread count raised the way the CLI raises it (bldfm.config.NUM_THREADS)
+    for fam, nthreads in itertools.product(fams, (2, 3, 4)):
+        yield {"family": fam, "halos": [0.0, 13.0], "footprint": False, "order": "ascending", "ns": ns, "threads": nthreads, "modes": [8, 6]}
 
 
 def case_field_ladder(case):
@@ -209,6 +212,8 @@ def _field_error(case, halo, n):
 
     from vf.oracles import halfspace
 
+    from bldfm import config as rt
+
     S0 = sl.solver()
     nx, ny, dom = 8, 6, (200.0, 150.0)
     dx, dy = dom[0] / nx, dom[1] / ny
@@ -217,11 +222,23 @@ def _field_error(case, halo, n):
     fp = case["footprint"]
     q = sl.impulse(ny, nx, 2, 3)
     mp = (5 * dx, 1 * dy) if fp else (0.0, 0.0)
-    modes = (4, 4)
+    modes = tuple(case.get("modes", (4, 4)))
+    if "threads" in case and halo == 0.0 and modes == (8, 6):
+        modes = (8, 6)
+    elif "threads" in case:
+        modes = (4, 4)
     z = np.linspace(z0, zt, n + 1)
     prof = tuple(np.asarray(f(z), dtype=float) + 0.0 * z for f in funcs)
     lv = {"ascending": [n // 2, n], "descending": [n, n // 2], "rotated": [n // 2, n, n // 4]}[case["order"]]
-    _, c, f = S0(q, z, prof, dom, lv, modes=modes, halo=halo, precision="double", footprint=fp, meas_pt=mp)
+    saved_threads = rt.NUM_THREADS
+    try:
+        rt.NUM_THREADS = case.get("threads", 1)
+        _, c, f = S0(q, z, prof, dom, lv, modes=modes, halo=halo, precision="double", footprint=fp, meas_pt=mp)
+    finally:
+        rt.NUM_THREADS = saved_threads
+    if modes == (8, 6):
+        # all modes kept: drop the grid's Nyquist components (excluded by the property) from both sides below
+        pass
     tr = lambda kx, ky: riccati.transfer(funcs, z0, zt, z[lv], kx, ky)  # noqa
     res = [quad(lambda t: 1.0 / float(funcs[4](t)), z0, zz, epsabs=1e-13, epsrel=1e-12)[0] for zz in z[lv]]
     cw, fw = halfspace.solve(q, dom, z[lv] - z0, None, modes, halo, meas_pt=mp, footprint=fp, transfer=tr, mean_resistance=res)
